@@ -99,9 +99,9 @@ let () =
                (* a restart after which the job goes on with other widths, hillWidth, weight, frequency *)
                let sg = List.init nd (fun _ -> nf ()) in
                let hw' = nf () in let w' = nf () in let fr' = ni () in
-               let gf' = ni () in let wt' = nb () in let bt' = nf () in
+               let gf' = ni () in let wt' = nb () in let bt' = nf () in let keep' = nb () in
                let e = EReconf { p_sigmas = sg; p_hill_width = hw'; p_weight = w'; p_freq = z_of_int fr';
-                                 p_gfreq = z_of_int gf'; p_wt = wt'; p_bias_temp = bt' } in
+                                 p_gfreq = z_of_int gf'; p_wt = wt'; p_bias_temp = bt'; p_keep = keep' } in
                st := apply_event fops !c !st e;
                c := next_cfg !c e
              | "B" ->
